@@ -135,4 +135,8 @@ theorem accepts_of_validates (paths : List (Bytes × Bytes)) (h : schemaAllows p
 theorem schema_required : Generated.schemaRequired = [b!"arch", b!"contents.[].dst", b!"name", b!"overrides.{}.contents.[].dst", b!"version"] := by
   decide
 
+/-- the translator regenerated, on this run and from the working tree, every table this property is tied through
+    (when an extraction fails the reviewed table stands in so that the model still compiles, and this stops checking) -/
+theorem translator_tables_regenerated : Generated.extracted_G3Types = true ∧ Generated.extracted_G5KeyTree = true ∧ Generated.extracted_G6Schema = true ∧ Generated.extracted_G7Accepted = true := by decide
+
 end Nfpm.Props.C17
